@@ -48,6 +48,7 @@ class Choices
         return c;
     }
     std::vector<ChoicePoint> const& points() const { return points_; }
+    std::vector<int> const& prefix() const { return prefix_; }
     bool diverged() const { return diverged_ || points_.size() < prefix_.size(); }
     std::vector<int> chosen() const
     {
